@@ -21,7 +21,7 @@ case $pkgname in
   *) echo "unknown package $pkgname"; exit 2 ;;
 esac
 cp $SD/demo_test.go $WT/$dir/zz_seed_demo_test.go
-run() { (cd $WT && go test -count=1 -run 'Seed' ./$dir 2>&1 | tail -3 | cut -c1-160); }
+run() { (cd $WT && go test -count=1 -run 'Seed|Demo' ./$dir 2>&1 | tail -3 | cut -c1-160); }
 echo "-- without the change:"; run
 git -C $WT apply $SD/patch.diff
 echo "-- with the change:"; run
